@@ -187,7 +187,7 @@ func ruleC14(w *World, r *Report) {
 		}
 		r.check(good, "R14.3", w.FuncName(has2), "has2ndBit(f) ⇔ f&0x02 != 0 for all 256 values", w.Pos(has2.Pos()), "exhaustive evaluation of the extracted expression", "has2ndBit does not test bit 2 (SNDEM)")
 	}
-	var trueStores, falseStores []*ssa.Store
+	var trueStores, falseStores, computedStores []*ssa.Store
 	allInstrs(parseFAR, func(i ssa.Instruction) {
 		st, ok := i.(*ssa.Store)
 		if !ok {
@@ -201,11 +201,15 @@ func ruleC14(w *World, r *Report) {
 			trueStores = append(trueStores, st)
 		} else if ok && c.Value != nil && c.Value.String() == "false" {
 			falseStores = append(falseStores, st)
+		} else if c2, isCall := st.Val.(*ssa.Call); isCall && staticCallee(c2) == has2 && strings.Contains(symOf(c2.Call.Args[0]).String(), "PFCPSMReqFlags") {
+			// flag = has2ndBit(flags): sets and resets in one store
+			computedStores = append(computedStores, st)
 		} else {
 			r.bad("R14.3", pname, "sendEndMarker assigned a non-constant", w.Pos(st.Pos()), "flag assigned from "+symOf(st.Val).String())
 		}
 	})
-	r.floor("R14.3 stores of true into sendEndMarker", len(trueStores), 1)
+	falseStores = append(falseStores, computedStores...)
+	r.check(len(trueStores)+len(computedStores) >= 1, "R14.3", pname, "the flag can be set (from the SNDEM bit)", w.Pos(parseFAR.Pos()), fmt.Sprintf("%d conditional + %d computed stores", len(trueStores), len(computedStores)), "parseFAR never sets sendEndMarker")
 	for k, st := range trueStores {
 		guard := onlyVia(parseFAR, st, func(a, b *ssa.BasicBlock) bool {
 			v, truth, ok := boolEdge(a, b)
@@ -248,9 +252,11 @@ func ruleC14(w *World, r *Report) {
 				}
 				return false
 			})
-			r.check(miss == nil, "R14.3", pname, "every successful parse resets the flag first", w.Pos(ret.Pos()), "must-pass-through store of false", "a successful parse can keep a stale send-end-marker flag")
+			r.check(miss == nil, "R14.3", pname, "every successful parse writes the flag (reset, or computed from this IE)", w.Pos(ret.Pos()), "must-pass-through store", "a successful parse of an IE without PFCPSMReq-Flags leaves the flag as the caller's value had it: with a scratch FAR that lives across loop iterations, the flag of the previous Update FAR leaks into the next one and an extra End Marker is emitted")
 		}
 	}
+	ruleC14Scratch(w, r)
+	ruleC14EveryMarker(w, r)
 	// UpdateForwardingParameters only under op == update; ForwardingParameters only under op == create
 	opUpdate := w.ConstInt(P, pfcpPkg, "update")
 	opCreate := w.ConstInt(P, pfcpPkg, "create")
@@ -390,3 +396,81 @@ func ruleC14(w *World, r *Report) {
 	}
 }
 
+
+
+// ruleC14Scratch: each Update/Create FAR IE is parsed into a FAR value of its own: the receiver of
+// parseFAR in the handlers' loops is a local declared inside the loop body (zeroed per element).
+func ruleC14Scratch(w *World, r *Report) {
+	const P = "C14"
+	parseFAR := w.Fn(P, "pfcpiface.(*far).parseFAR")
+	n := 0
+	for _, hn := range []string{"pfcpiface.(*PFCPConn).handleSessionModificationRequest", "pfcpiface.(*PFCPConn).handleSessionEstablishmentRequest"} {
+		h := w.Fn(P, hn)
+		for _, c := range callsTo(h, parseFAR) {
+			call := c.(*ssa.Call)
+			n++
+			al, isAl := call.Call.Args[0].(*ssa.Alloc)
+			inLoop := false
+			if isAl {
+				b := al.Block()
+				for _, sc := range b.Succs {
+					if reachesBlock(sc, b) {
+						inLoop = true
+					}
+				}
+			}
+			r.check(isAl && inLoop, "R14.3", hn, fmt.Sprintf("FAR IE #%d is parsed into a value of its own", n), w.Pos(call.Pos()), "scratch FAR declared inside the loop", "the FAR that receives the parsed IE lives across loop iterations: fields the next IE does not carry (send-end-marker flag, tunnel parameters) keep the previous IE's values")
+		}
+	}
+	r.floor("R14.3 parseFAR call sites in the handlers", n, 2)
+}
+
+
+// ruleC14EveryMarker: one marker per matching FAR all the way to the socket queue.
+//   - addEndMarker leaves without appending only when building the packet failed (an error of the
+//     library calls); nothing else (e.g. a look at the packets already queued) decides;
+//   - SendEndMarkers hands every element of the list to the sender: a plain send on every iteration,
+//     no early exit.
+func ruleC14EveryMarker(w *World, r *Report) {
+	const P = "C14"
+	add := w.Fn(P, "pfcpiface.addEndMarker")
+	an := w.FuncName(add)
+	var app ssa.Instruction
+	allInstrs(add, func(i ssa.Instruction) {
+		if c, ok := i.(*ssa.Call); ok {
+			if b, isB := c.Call.Value.(*ssa.Builtin); isB && b.Name() == "append" && strings.Contains(symOf(c.Call.Args[0]).String(), "endMarkerList") {
+				app = i
+			}
+		}
+	})
+	if app == nil {
+		r.bad("R14.6", an, "the marker is appended to the caller's list", w.Pos(add.Pos()), "addEndMarker no longer appends to endMarkerList")
+	} else {
+		n := 0
+		for k, ret := range returnsOf(add) {
+			// a return that does not pass the append must be behind an "err != nil" edge
+			if reach(add, nil, func(i ssa.Instruction) bool { return i == ssa.Instruction(ret) }, func(i ssa.Instruction) bool { return i == app }, nil) == nil {
+				continue
+			}
+			n++
+			hit := reach(add, nil, func(i ssa.Instruction) bool { return i == ssa.Instruction(ret) }, func(i ssa.Instruction) bool { return i == app }, func(a, b *ssa.BasicBlock) bool {
+				return nilnessEdge(a, b, func(x ssa.Value) bool { return isErrorType(x.Type()) }, false)
+			})
+			r.check(hit == nil, "R14.6", an, fmt.Sprintf("return #%d without a marker only when building the packet failed", k+1), w.Pos(ret.Pos()), "behind err != nil", "addEndMarker can leave without appending the marker for a reason other than a serialisation error (e.g. because an identical packet is already queued): two flagged FARs that share the old tunnel get one End Marker instead of one each")
+		}
+		r.floor("R14.6 marker-less returns of addEndMarker", n, 1)
+	}
+	send := w.Fn(P, "pfcpiface.(*bess).SendEndMarkers")
+	sn := w.FuncName(send)
+	loops := rangeLoopsOver(send, "endMarkerList")
+	if len(loops) != 1 {
+		r.bad("R14.6", sn, "one pass over the marker list", w.Pos(send.Pos()), fmt.Sprintf("%d loops over the list", len(loops)))
+		return
+	}
+	hdr, body := loops[0][0], loops[0][1]
+	isPlainSend := func(i ssa.Instruction) bool {
+		s, ok := i.(*ssa.Send)
+		return ok && strings.HasSuffix(symOf(s.Chan).String(), "endMarkerChan")
+	}
+	r.check(everyIteration(send, body, hdr, isPlainSend) && len(loopEarlyExits(send, hdr)) == 0, "R14.6", sn, "every marker of the list is handed to the sender (no drop, no early exit)", w.Pos(send.Pos()), "plain send on every iteration", "a marker can be skipped or the loop left early (e.g. select/default when the queue is full): the FAR update was accepted and programmed but its End Marker is never sent")
+}
